@@ -63,3 +63,16 @@ Example C03_accepts_somewhere :
   rx_filter (mkHdr 0x20 0 0x81 0 5 6 1) [0x81; 0x1c; 0x63; 0x20; 0x14; 0x01; 0x00; 0xcb] default_opts = Ok true
   /\ hdr_in_range (mkHdr 0x20 0 0x81 0 5 6 1).
 Proof. split; [vm_compute; reflexivity | unfold hdr_in_range; cbn; repeat split; reflexivity]. Qed.
+
+(* non-vacuity of the completeness pair: an in-range request header, a reply to a request
+   that differs only in the sequence number, and what the filter says about each *)
+Example C03_reply_pair_somewhere :
+  let h := mkHdr 0x20 0 0x81 0 5 6 1 in let h' := mkHdr 0x20 0 0x81 0 6 6 1 in
+  hdr_in_range h /\ hdr_in_range h' /\
+  (exists f, rsp_frame h [0; 0x51] = Ok f /\ rx_filter h f default_opts = Ok true) /\
+  (exists f', rsp_frame h' [0; 0x51] = Ok f' /\ rx_filter h f' default_opts = Ok false).
+Proof.
+  cbv zeta. split; [unfold hdr_in_range; cbn; repeat split; reflexivity|].
+  split; [unfold hdr_in_range; cbn; repeat split; reflexivity|].
+  split; eexists; split; vm_compute; reflexivity.
+Qed.
